@@ -55,7 +55,8 @@ impl Orchestrator {
       final(self).conn_sndtimeo_positive() == old(self).conn_sndtimeo_positive(),
   { unimplemented!() }
 }
-pub struct PushSocket { pub core: CoreRef, pub outgoing_orchestrator: Orchestrator, pub sndtimeo: Option<Duration> }
+pub struct PushSocket { pub core: CoreRef, pub outgoing_orchestrator: Orchestrator, pub sndtimeo: Option<Duration>,
+  pub pending_send_parts: FrameBatch }   // R6: parking_lot::Mutex<FrameBatch>, sequential (one task sends a message frame by frame)
 impl PushSocket {
   // R8: self.cached_options.load().sndtimeo
   #[verifier::external_body] pub fn verif_sndtimeo(&self) -> (r: Option<Duration>) ensures r == self.sndtimeo { unimplemented!() }
@@ -68,8 +69,23 @@ impl Distributor {
     ensures final(self).sent@ == old(self).sent@.push(frames@)
   { unimplemented!() }
   #[verifier::external_body] pub fn remove_peer_uri(&mut self, uri: &String) ensures final(self).sent == old(self).sent { unimplemented!() }
+  // R8: send_to_all(&msg, ..): the single-frame fan-out
+  #[verifier::external_body]
+  pub async fn verif_send_one_to_all(&mut self, msg: &Msg) -> (r: Result<(), Vec<(String, ZmqError)>>)
+    ensures final(self).sent@ == old(self).sent@.push(seq![*msg])
+  { unimplemented!() }
 }
-pub struct PubSocket { pub core: CoreRef, pub distributor: Distributor }
+pub struct PubSocket { pub core: CoreRef, pub distributor: Distributor,
+  pub pending_send_parts: FrameBatch }   // R6: parking_lot::Mutex<FrameBatch>, sequential
+// try_route_sync of the orchestrator (proved in unit route: a refused batch comes back intact)
+impl Orchestrator {
+  #[verifier::external_body]
+  pub fn try_route_sync(&mut self, fb: FrameBatch) -> (r: Result<(), (FrameBatch, ZmqError)>)
+    ensures r is Ok ==> final(self).routed@ == old(self).routed@.push(fb@), r matches Err(p) ==> p.0@ == fb@ && final(self).routed@ == old(self).routed@,
+      final(self).timed == old(self).timed, final(self).conn_sndtimeo_positive() == old(self).conn_sndtimeo_positive()
+  { unimplemented!() }
+}
+impl Default for Msg { #[verifier::external_body] fn default() -> (r: Msg) ensures r.data is None { unimplemented!() } }
 // DEALER: the framing latch (automatic delimiter; proved in unit framing: dealer_auto_encode prepends one empty MORE frame)
 pub struct FramingLatch { pub manual: bool }
 impl FramingLatch {
@@ -121,6 +137,16 @@ ATTRS = ["#[verifier::loop_isolation(false)]"]
 def norm_loop(cont, inp, ordn=0):
   return {ordn: {"desugar_enum": True, "invariant": [("C02:normalisation_loop", "normalised_upto(%s@, %s, vx_i%d as int)" % (cont, inp, ordn))]}}
 
+PENDING = [
+  ("R6", re.compile(r"let mut pending = self\.pending_send_parts\.lock\(\);\s*\n"), "", "*"),
+  ("R6", "self.pending_send_parts.lock().is_empty()", "self.pending_send_parts.is_empty()", "*"),
+  ("R6", re.compile(r"\*pending = "), "self.pending_send_parts = ", "*"),
+  ("R6", "std::mem::take(&mut *pending)", "std::mem::take(&mut self.pending_send_parts)", "*"),
+  ("R6", re.compile(r"\bpending\."), "self.pending_send_parts.", "*"),
+  ("R5", "FrameBatch::MAX_FRAMES", "255", "*"),
+]
+HELD = "final(self).pending_send_parts@ == old(self).pending_send_parts@.push(msg)"
+
 parts = [
   Raw("prelude/core.rs"),
   Raw("prelude/std.rs"),
@@ -133,12 +159,33 @@ parts = [
   # ---------------- PUSH
   Fn(PUSH, "send_with_timeout", impl=r"impl\s+PushSocket\b", emit_impl="impl PushSocket", sig_sub=SELF_MUT,
      ensures=[
-       ("C01+C02:the_batch_is_handed_to_the_router_path_exactly_once_unchanged", "final(self).outgoing_orchestrator.routed@ == old(self).outgoing_orchestrator.routed@.push(fb@)"),
+       ("C01+C02:the_batch_is_handed_to_the_router_path_exactly_once_unchanged", "final(self).outgoing_orchestrator.routed@ == old(self).outgoing_orchestrator.routed@.push(fb@) && final(self).pending_send_parts == old(self).pending_send_parts"),
        ("C14:timeout_only_after_a_timed_wait_of_sndtimeo", "r matches Err(ZmqError::Timeout) ==> (sndtimeo matches Some(d) && d.ns() > 0 && final(self).outgoing_orchestrator.timed@.last() == Some(d.ns())) || old(self).outgoing_orchestrator.conn_sndtimeo_positive()"),
        ("C14:zero_or_infinite_sndtimeo_is_an_untimed_call", "!(sndtimeo matches Some(d) && d.ns() > 0) ==> final(self).outgoing_orchestrator.timed@.last() is None && (r matches Err(ZmqError::Timeout) ==> old(self).outgoing_orchestrator.conn_sndtimeo_positive())"),
      ],
      extra=[("R8", re.compile(r"tokio_timeout\(\s*d,\s*self\.outgoing_orchestrator\.route_message\(fb, wait_for_peer\),\s*\)\s*\.await", re.S),
              "self.outgoing_orchestrator.verif_timed_route(d, fb, wait_for_peer).await", 1)]),
+  # frame-by-frame sending: the frames of one message are held back and routed together, as ONE batch, to ONE peer
+  Fn(PUSH, "send", impl=PUSH_IMPL, emit_impl="impl PushSocket", sig_sub=SELF_MUT,
+     ensures=[
+       ("C02+C13:a_frame_with_MORE_is_held_back_and_nothing_is_routed",
+        "msg.flags.more ==> final(self).outgoing_orchestrator.routed@ == old(self).outgoing_orchestrator.routed@ && (r is Ok ==> " + HELD + ")"),
+       ("C02+C13:the_last_frame_routes_the_whole_message_as_one_batch",
+        "!msg.flags.more && final(self).outgoing_orchestrator.routed@.len() > old(self).outgoing_orchestrator.routed@.len() ==> "
+        "final(self).outgoing_orchestrator.routed@ == old(self).outgoing_orchestrator.routed@.push(old(self).pending_send_parts@.push(msg)) && final(self).pending_send_parts@.len() == 0"),
+       ("C02:a_message_beyond_the_frame_limit_is_refused_never_routed_in_part",
+        "old(self).pending_send_parts@.len() >= 255 ==> r is Err && final(self).outgoing_orchestrator.routed@ == old(self).outgoing_orchestrator.routed@"),
+       ("C02:only_whole_messages_ever_reach_the_router_path",
+        "final(self).outgoing_orchestrator.routed@.len() <= old(self).outgoing_orchestrator.routed@.len() + 1 && (final(self).outgoing_orchestrator.routed@.len() > old(self).outgoing_orchestrator.routed@.len() ==> !msg.flags.more)"),
+     ],
+     extra=PENDING + [("R8", "self.cached_options.load().sndtimeo", "self.verif_sndtimeo()", 1)]),
+  Fn(PUSH, "try_send_sync", impl=PUSH_IMPL, emit_impl="impl PushSocket", sig_sub=SELF_MUT,
+     ensures=[
+       ("C02+C13:the_fast_path_routes_only_a_single_frame_message_while_nothing_is_held_back",
+        "final(self).outgoing_orchestrator.routed@ != old(self).outgoing_orchestrator.routed@ ==> !msg.flags.more && old(self).pending_send_parts@.len() == 0 && final(self).outgoing_orchestrator.routed@ == old(self).outgoing_orchestrator.routed@.push(seq![msg])"),
+       ("C02:the_fast_path_never_touches_the_held_back_frames", "final(self).pending_send_parts@ == old(self).pending_send_parts@"),
+     ],
+     extra=PENDING + [INVALID]),
   Fn(PUSH, "send_multipart", impl=PUSH_IMPL, emit_impl="impl PushSocket", sig_sub=SELF_MUT, mut_params=["frames"], attrs=ATTRS,
      ensures=[
        ("C02:what_is_sent_is_the_applications_frames_with_MORE_on_all_but_the_last",
@@ -150,14 +197,31 @@ parts = [
      loops=norm_loop("frames__m", "frames@"),
      extra=[SETF, ("R8", "self.cached_options.load().sndtimeo", "self.verif_sndtimeo()", 1)]),
   # ---------------- PUB
+  Fn(PUB, "send", impl=PUB_IMPL, emit_impl="impl PubSocket", sig_sub=SELF_MUT, attrs=ATTRS,
+     ensures=[
+       ("C02:a_frame_with_MORE_is_held_back_and_nothing_is_published",
+        "msg.flags.more ==> final(self).distributor.sent@ == old(self).distributor.sent@ && (r is Ok ==> " + HELD + ")"),
+       ("C02:the_last_frame_publishes_the_whole_message_as_one_batch",
+        "!msg.flags.more && final(self).distributor.sent@.len() > old(self).distributor.sent@.len() ==> "
+        "final(self).distributor.sent@ == old(self).distributor.sent@.push(final(self).distributor.sent@.last()) && normalised(final(self).distributor.sent@.last(), old(self).pending_send_parts@.push(msg)) && final(self).pending_send_parts@.len() == 0"),
+       ("C02:a_message_beyond_the_frame_limit_is_refused_never_published_in_part",
+        "old(self).pending_send_parts@.len() >= 255 ==> r is Err && final(self).distributor.sent@ == old(self).distributor.sent@"),
+     ],
+     loops={0: {"desugar": True, "invariant": [("C02:cleanup_loop_publishes_nothing", "self.distributor.sent == sent_after && self.pending_send_parts == pend_after")]}},
+     hints=[("snap", "@loop_before:0", 0, "", "let ghost sent_after = self.distributor.sent; let ghost pend_after = self.pending_send_parts;")],
+     extra=PENDING + [INVALID,
+            ("R1", re.compile(r"let payload_preview_str = msg\s*\.data\(\).*?\.unwrap_or_else\(\|\| \"<empty_payload>\"\.to_string\(\)\);", re.S), "", 1, "pre"),
+            ("R8", re.compile(r"self\s*\.distributor\s*\.send_to_all\(&msg, self\.core\.handle, &self\.core\.core_state\)\s*\.await", re.S), "self.distributor.verif_send_one_to_all(&msg).await", 1)]),
   Fn(PUB, "send_multipart", impl=PUB_IMPL, emit_impl="impl PubSocket", sig_sub=SELF_MUT, mut_params=["frames"], attrs=ATTRS,
      ensures=[
        ("C02:what_is_published_is_the_applications_frames_with_MORE_on_all_but_the_last",
         "final(self).distributor.sent@.len() > old(self).distributor.sent@.len() ==> "
         "final(self).distributor.sent@ == old(self).distributor.sent@.push(final(self).distributor.sent@.last()) && normalised(final(self).distributor.sent@.last(), frames@)"),
        ("C02:empty_message_sends_nothing", "frames@.len() == 0 ==> final(self).distributor.sent == old(self).distributor.sent"),
+       ("C02:held_back_frames_untouched", "final(self).pending_send_parts == old(self).pending_send_parts"),
      ],
-     loops={0: norm_loop("frames__m", "frames@")[0], 1: {"desugar": True, "invariant": [("C02:cleanup_loop_sends_nothing", "self.distributor.sent == sent_after")]}},
+     loops={0: dict(norm_loop("frames__m", "frames@")[0], invariant=norm_loop("frames__m", "frames@")[0]["invariant"] + ["self.pending_send_parts == old(self).pending_send_parts"]),
+            1: {"desugar": True, "invariant": [("C02:cleanup_loop_sends_nothing", "self.distributor.sent == sent_after && self.pending_send_parts == old(self).pending_send_parts")]}},
      hints=[("snap", "@loop_before:1", 0, "", "let ghost sent_after = self.distributor.sent;")],
      extra=[INVALID, SETF,
             ("R8", re.compile(r"self\s*\.distributor\s*\.send_to_all_multipart\((frames(?:__m)?), self\.core\.handle, &self\.core\.core_state\)\s*\.await", re.S), r"self.distributor.verif_send_to_all(\1).await", 1)]),
